@@ -141,6 +141,10 @@ def check_equilibria(run, ex, jnp, rng, tier):
         if D > 1:
             cases.append(("Burgers", D, N, {}, [[0.5, -0.25, 0.125][:D]]))
     cases.append(("NavierStokesVorticity", 2, 8, {}, [[0.6]]))
+    # generic interface with a quadratic reaction term: D a_0 u + b_0 u^2 = 0  <=>  u* = - D a_0 / b_0 (the generic zeroth-order term is D a_0)
+    for D in (1, 2, 3):
+        cases.append(("GeneralNonlinearStepper", D, {1: 16, 2: 8, 3: 6}[D], dict(linear_coefficients=(0.6 / D, 0.0, 0.02), nonlinear_coefficients=(-0.4, -0.3, 0.1)), [[1.5], [0.0]]))
+        cases.append(("GeneralPolynomialStepper", D, {1: 16, 2: 8, 3: 6}[D], dict(linear_coefficients=(0.6 / D, 0.0, 0.02), polynomial_coefficients=(0.0, 0.0, -0.4)), [[1.5]]))
     cases.append(("NavierStokesVelocity", 3, 6, {}, [[0.2, -0.1, 0.3]]))
     for name, D, N, kw, eqs in cases:
         for order in (1, 2, 3, 4):
